@@ -73,7 +73,7 @@ class Sem:
         if e.op == "cell":
             return e.info
         if e.op == "const" and e.info[0] in ("item", "static"):
-            return e.info[1]
+            return self.canon_cell(e.info[1])
         if e.op == "call" and e.info in CONTAINER_CTORS:
             kind = CONTAINER_CTORS[e.info]
             statics = []
@@ -96,6 +96,37 @@ class Sem:
             # container mutated in place (e.g. after Bucket::remove(&mut b)): same cell as before
             return self.cell_of(e.args[0])
         return None
+
+    def canon_cell(self, path):
+        """a storage container is identified by (crate, storage key, value type), not by the name of the const holding it: a const of
+        today's tree whose identity equals a pinned one (krpsa/cells_pinned.json, from the pinned tree) is called by the pinned name, so
+        that renaming or moving the const changes nothing for the rules"""
+        m = self.__dict__.get("_cell_alias")
+        if m is None:
+            import json as _json, os as _os, re as _re
+            m = {}
+            try:
+                pinned = _json.load(open(_os.path.join(_os.path.dirname(_os.path.abspath(__file__)), "cells_pinned.json")))
+            except Exception:
+                pinned = {}
+            for b in self.prog.bodies.values():
+                if b.kind not in ("const", "static") or not b.blocks or b.blocks[0].term.kind != "call":
+                    continue
+                c = b.blocks[0].term.callee
+                if not _re.search(r"cw_storage_plus::(Item|Map)::.*::new$", c.path):
+                    continue
+                key = None
+                for st in b.j["blocks"][0]["stmts"]:
+                    op = st.get("rv", {}).get("op", {})
+                    if op.get("k") == "const" and "str" in op:
+                        key = op["str"]
+                if key is None:
+                    continue
+                sig = "%s|%s|%s" % (b.path.split("::")[0], key, c.j.get("full") if hasattr(c, "j") else "")
+                if sig in pinned and pinned[sig] != b.path and pinned[sig] not in self.prog.bodies:
+                    m[b.path] = pinned[sig]
+            self._cell_alias = m
+        return m.get(path, path)
 
     def storage_op(self, e):
         """for a call expression on the storage API: (kind, cell, key_expr, value_expr)"""
